@@ -588,7 +588,9 @@ def run_sim(chk, flavour="plain", only=None, H=None, extra=None, label="h_sim"):
                     sig = "send-while-a-write-is-in-flight"
                 elif "app=async" in h["opts"]:
                     sig = "response-after-the-handler-returned"
-            chk.violation(msg, {"case": c, "history": h["name"], "impl_log": io[:3000]}, True, sig)
+            chk.violation(msg, {"case": c, "history": h["name"], "impl_log": io[:3000], "signature": sig,
+                                "h": {"name": h["name"], "flav": h["flav"], "opts": h["opts"], "events": h["events"], "limits": h.get("limits")},
+                                "flavour": flavour, "extra": extra}, True, sig)
         if ents is not None and any(e.startswith("c1:wire=") for e in ents):
             chk.count_distinct(c)
         m2, i2 = S.cut_undefined(mo, io)
@@ -625,8 +627,29 @@ def replay(body):
     if r.get("harness") == "h_real":
         import realcheck
         return realcheck.replay(body)
-    hb, _ = vlib.build_harness("h_sim")
+    hd = r.get("h")
+    kw = {}
+    if r.get("flavour"):
+        kw["flavour"] = r["flavour"]
+    if r.get("extra"):
+        kw["extra"] = r["extra"]
+    try:
+        hb, _ = vlib.build_harness("h_sim", **kw)
+    except TypeError:
+        hb, _ = vlib.build_harness("h_sim")
     out, _ = vlib.run_cases_resilient(hb, [case])
     print("case: %s\nimpl log: %s" % (case[:500], out[0][:2000] if out else "?"))
+    pid = body.get("property")
+    if hd and pid in MONITORS and out:
+        # judge the log of this run with the property's monitor, as the check did
+        h = dict(name=hd["name"], flav=hd["flav"], opts=hd["opts"], events=hd["events"], reqs=None, limits=hd.get("limits"))
+        ents, pend = S.parse_log(out[0])
+        found = MONITORS[pid](h, ents, pend, out[0])
+        for sig, msg in found:
+            print("monitor: [%s] %s" % (sig, msg[:300]))
+        want = r.get("signature")
+        bad = [x for x in found if want is None or x[0] == want] or (found if want not in F07_EXPLAINS else [])
+        print("property violated on this history" if bad else "property holds on this history")
+        return 1 if bad else 0
     print("compare with the recorded log in the replay file")
     return 1
